@@ -9,6 +9,59 @@ from .serialize import (  # noqa: F401
     DeserializationExtraDataError)
 
 
+import binascii
+
+# names of the real package that this stand-in does not provide and that were asked for: a
+# miss is the harness's shortcoming, never the behaviour of the code under test
+SHIM_MISSING = []
+
+
+def __getattr__(name):
+    if not name.startswith("__"):
+        SHIM_MISSING.append("bitcoin.core." + name)
+    raise AttributeError("module 'bitcoin.core' (stand-in) has no attribute %r" % name)
+
+
+
+def x(h):
+    """Convert a hex string to bytes"""
+    return binascii.unhexlify(h.encode('utf8'))
+
+
+def b2x(b):
+    """Convert bytes to a hex string"""
+    return binascii.hexlify(b).decode('utf8')
+
+
+def lx(h):
+    """Convert a little-endian hex string to bytes"""
+    return binascii.unhexlify(h.encode('utf8'))[::-1]
+
+
+def b2lx(b):
+    """Convert bytes to a little-endian hex string"""
+    return binascii.hexlify(b[::-1]).decode('utf8')
+
+
+def str_money_value(value):
+    """Convert an integer money value to a fixed point string"""
+    r = '%i.%08i' % (value // COIN, value % COIN)
+    r = r.rstrip('0')
+    if r[-1] == '.':
+        r += '0'
+    return r
+
+
+COIN = 100000000
+MAX_BLOCK_SIZE = 1000000
+MAX_BLOCK_WEIGHT = 4000000
+WITNESS_COINBASE_SCRIPTPUBKEY_MAGIC = bytes([0x6a, 0x24, 0xaa, 0x21, 0xa9, 0xed])
+
+
+class ValidationError(Exception):
+    """Base class for all blockchain validation errors"""
+
+
 class COutPoint(Serializable):
     def __init__(self, hash=b'\x00' * 32, n=0xffffffff):
         if not len(hash) == 32:
